@@ -1609,6 +1609,49 @@ pub fn c09(ctx: &Ctx) -> Report {
         cfg.flushed_survives = true;
         run_case(&mut rng, &sc, &cfg, &mut model, &mut rep, &format!("c09/{}/{k}", ctx.seed));
     }
+    // FAT32 volumes with more than 65536 clusters: the FSInfo hint steers the next allocation to cluster 0x10000 + c,
+    // where c is the first cluster of a file that is on the medium; a directory made there, then files created in
+    // it - the flushed files must survive every write of that (the full 28-bit cluster number has to reach the entry)
+    for k in 0..budget(ctx, 3, 12) {
+        let o = ScOpts { fat32: Some(true), bpc_choices: vec![1, 2], big_tree: k % 2 == 1, limits: Some((4, 4, 1)), ..Default::default() };
+        let mut sc = make_scenario(&mut rng, &o);
+        let l = sc.vols[0].layout.clone();
+        let victims: Vec<([u8; 11], u32)> = mkfs::spec_list_dir(&sc.blocks, &l, &[]).unwrap_or_default().iter().filter(|e| e.1 & 0x18 == 0 && e.3 >= 64 && e.2 >= 2).map(|e| (e.0, e.2)).filter(|(_, c)| 0x1_0000 + c < l.clusters + 2 && mkfs::fat_get(&sc.blocks, &l, 0x1_0000 + c) == 0).collect();
+        if victims.is_empty() {
+            rep.count("high-cluster-directory:no-candidate");
+            continue;
+        }
+        let (vname, c) = victims[k % victims.len()];
+        // the file's bytes 32..64 are zero (a run of zeros is ordinary file content; read as a directory slot it is a
+        // free slot): image and reference tree alike
+        {
+            let b0 = mkfs::cluster_to_block(&l, c);
+            let mut blk = sc.blocks.get(&b0).copied().unwrap_or([0u8; 512]);
+            for x in blk[32..64].iter_mut() {
+                *x = 0;
+            }
+            sc.blocks.insert(b0, blk);
+            if let Some(RefNode::File(f)) = sc.vols[0].tree.children.get_mut(&vname) {
+                for x in f.data[32..64].iter_mut() {
+                    *x = 0;
+                }
+            }
+        }
+        let mut info = sc.blocks.get(&l.info_block).copied().unwrap_or([0u8; 512]);
+        info[492..496].copy_from_slice(&(0x1_0000u32 + c).to_le_bytes());
+        sc.blocks.insert(l.info_block, info);
+        let (v, d) = (sc.id_offset, sc.id_offset.wrapping_add(1));
+        let sub = sc.id_offset.wrapping_add(2);
+        let mut cfg = RunCfg::base(0, Profile::namespace());
+        let script = vec![Op::OpenVolume(sc.vols[0].slot), Op::OpenRoot(v), Op::Mkdir(d, "HI9".into()), Op::OpenDir(d, "HI9".into()),
+            Op::OpenFile(sub, "IN.TXT".into(), Mode::ReadWriteCreate), Op::Write(LAST_FILE, vec![9u8; 700]), Op::CloseFile(LAST_FILE),
+            Op::OpenFile(sub, "IN2.TXT".into(), Mode::ReadWriteCreate), Op::CloseFile(LAST_FILE), Op::Mkdir(sub, "DEEPER".into()), Op::List(sub), Op::Delete(sub, "IN2.TXT".into()), Op::CloseDir(sub), Op::List(d)];
+        cfg.nops = script.len();
+        cfg.script = Some(script);
+        cfg.flushed_survives = true;
+        rep.count("high-cluster-directory");
+        run_case(&mut rng, &sc, &cfg, &mut model, &mut rep, &format!("c09/{}/high{k}", ctx.seed));
+    }
     finish(rep, &model, "after every successful flush the file (path, length, digest) is recorded; for every later operation on other files, directories or the volume, after EVERY prefix of that operation's block writes the independent Lean reader must still find the file with at least the flushed length and exactly the flushed bytes (until the file itself is written, truncated or deleted); distinct = histories")
 }
 
@@ -1624,7 +1667,34 @@ pub fn c10(ctx: &Ctx) -> Report {
         cfg.crash_prefixes = true;
         run_case(&mut rng, &sc, &cfg, &mut model, &mut rep, &format!("c10/{}/{k}", ctx.seed));
     }
-    finish(rep, &model, "every prefix of the block-write sequence of every mutating operation (create, write and extend, flush, close, truncate-open, delete, mkdir, directory growth, volume close) in generated histories, on images whose free clusters are filled with plausible stale directory entries: the Lean fsck (crash variant: lost clusters and a stale size allowed) runs on the medium after each single write; distinct = histories")
+    // a fixed gallery of the mutating operations in their less usual forms (zero-length writes on a truncated file,
+    // truncation closed without a write, flush twice, append after truncation, delete, nested create / delete), a
+    // crash after every single block write of each
+    for k in 0..budget(ctx, 4, 24) {
+        let o = ScOpts { fat32: Some(k % 2 == 0), dirty: true, bpc_choices: vec![1, 2], big_tree: k % 4 >= 2, limits: Some((4, 4, 1)), stale_info: k % 4 == 1, ..Default::default() };
+        let sc = make_scenario(&mut rng, &o);
+        let (v, d) = (sc.id_offset, sc.id_offset.wrapping_add(1));
+        let cb = (sc.vols[0].layout.bpc * 512) as usize;
+        let script = vec![
+            Op::OpenVolume(sc.vols[0].slot), Op::OpenRoot(v),
+            Op::OpenFile(d, "CG.BIN".into(), Mode::ReadWriteCreate), Op::Write(LAST_FILE, vec![0x11; 2 * cb + 7]), Op::CloseFile(LAST_FILE),
+            Op::OpenFile(d, "CG.BIN".into(), Mode::ReadWriteTruncate), Op::Write(LAST_FILE, vec![]), Op::Flush(LAST_FILE), Op::Flush(LAST_FILE), Op::CloseFile(LAST_FILE),
+            Op::OpenFile(d, "CG.BIN".into(), Mode::ReadWriteAppend), Op::Write(LAST_FILE, vec![0x22; cb]), Op::Flush(LAST_FILE), Op::Write(LAST_FILE, vec![]), Op::CloseFile(LAST_FILE),
+            Op::OpenFile(d, "CG.BIN".into(), Mode::ReadWriteCreateOrTruncate), Op::CloseFile(LAST_FILE),
+            Op::OpenFile(d, "CG.BIN".into(), Mode::ReadWriteTruncate), Op::Write(LAST_FILE, vec![0x33]), Op::SeekStart(LAST_FILE, 0), Op::Write(LAST_FILE, vec![]), Op::CloseFile(LAST_FILE),
+            Op::OpenFile(d, "CG.BIN".into(), Mode::ReadWriteTruncate), Op::Write(LAST_FILE, vec![]), Op::CloseFile(LAST_FILE),
+            Op::OpenFile(d, "CG2.BIN".into(), Mode::ReadWriteCreate), Op::Write(LAST_FILE, vec![]), Op::CloseFile(LAST_FILE),
+            Op::Delete(d, "CG.BIN".into()), Op::Mkdir(d, "CGD".into()), Op::OpenDir(d, "CGD".into()),
+            Op::OpenFile(LAST_DIR, "X.BIN".into(), Mode::ReadWriteCreate), Op::Write(LAST_FILE, vec![0x44; cb + 1]), Op::CloseFile(LAST_FILE), Op::Delete(LAST_DIR, "X.BIN".into()),
+            Op::CloseDir(LAST_DIR), Op::Delete(d, "CG2.BIN".into()), Op::CloseDir(d), Op::CloseVolume(v),
+        ];
+        let mut cfg = RunCfg::base(script.len(), Profile::space());
+        cfg.script = Some(script);
+        cfg.crash_prefixes = true;
+        rep.count("scripted:crash-gallery");
+        run_case(&mut rng, &sc, &cfg, &mut model, &mut rep, &format!("c10/{}/gallery{k}", ctx.seed));
+    }
+    finish(rep, &model, "every prefix of the block-write sequence of every mutating operation (create, write and extend, flush, close, truncate-open, delete, mkdir, directory growth, volume close) in generated histories and in a fixed gallery of their unusual forms (zero-length writes, truncation closed without a write), on images whose free clusters are filled with plausible stale directory entries: the Lean fsck (crash variant: lost clusters and a stale size allowed) runs on the medium after each single write; distinct = histories")
 }
 
 pub fn c16(ctx: &Ctx) -> Report {
